@@ -49,12 +49,36 @@ def generate(ctx):
         if pre is not None:
             for m in ('all', 'array', 'mixed'):
                 ids[m + '_pre'] = ctx.add('select@%s %s %s %s' % (pre.hex(), e, p, m)).id
+        # the convenience functions also accept the document as JSON TEXT: same answers (a seeded change gave `$` a fast path
+        # that returned the text itself)
+        if gen.is_finite(v) and gen.text_form(v) == v and (p == 'R' or r.random() < 0.5):
+            t = gen.json_text(v, r)
+            if t[:1] != b' ':
+                for k, op in (('g', 'get_by_path'), ('gf', 'get_by_path_first'), ('ga', 'get_by_path_array'), ('pe', 'path_exists'), ('pmatch', 'path_match')):
+                    ids[k + '_text'] = ctx.add('%s %s %s' % (op, gen.hexarg(t), p)).id
         ctx.trials.append((v, p, is_pred, ids, pre))
 
     for v in ds:
         for _ in range(3):
             ps = common.gen_path(ctx, v)
             trial(v, common.path_text(ps), ps[0][0] == 'P' and len(ps) == 1)
+    # the root path alone, for every kind of root
+    for v in [gen.text_form(x) for x in ds[::4] if gen.is_finite(x)] + common.scalar_roots():
+        trial(v, 'R', False)
+    # stand-alone predicates whose exists(...) starts from `@` -- at the top level `@` is the document itself, also when the
+    # document is a scalar (the random predicates above are rooted at `$` only; a seeded change made path_match evaluate such a
+    # predicate from a container position while the selector used the scalar position)
+    C = ('C',)
+    def cmpf(op, lit):
+        return ('F', ('b', op, ('p', [C]), ('v', lit)))
+    def ex(steps):
+        return ('e', steps)
+    preds = [ex([C]), ex([C, cmpf('gt', ('u', 1))]), ex([C, cmpf('eq', ('u', 5))]), ex([C, cmpf('eq', ('s', b'a'))]), ex([C, cmpf('ne', ('n',))]),
+             ex([C, ('W',)]), ex([C, ('B',)]), ex([C, ('W',), cmpf('gt', ('u', 1))]), ex([C, ('D', b'a')]), ex([C, ('D', b'a'), cmpf('eq', ('u', 5))]),
+             ('b', 'and', ex([C, cmpf('gt', ('u', 1))]), ex([('R',)])), ('b', 'or', ex([C, cmpf('lt', ('u', 1))]), ex([C, cmpf('gt', ('u', 1))]))]
+    for v in common.scalar_roots() + [('a', [('u', 1), ('u', 2), ('u', 5)]), ('a', []), ('a', [('u', 5)]), ('o', [(b'a', ('u', 5))]), ('o', [])]:
+        for e in preds:
+            trial(v, common.path_text([('P', e)]), True)
     # long chains of && / ||, deep nesting (no recursion budget in the model: the mode laws hold for them as well)
     ldocs = [v for v in ds if len(gen.enc(v)) <= 200][:40]
     for lab, p, is_pred in longpaths.paths(r, sizes=(64, 70, 300)):
@@ -73,6 +97,12 @@ def judge(ctx):
             if not all(o[m].startswith('err') for m in ('first', 'array', 'mixed')):
                 ctx.violate('modes disagree on success/error', case=case, observed=o)
             continue
+        for k in ('g', 'gf', 'ga', 'pe', 'pmatch'):
+            if k + '_text' in o:
+                ctx.count('convenience_functions_on_json_text', k)
+                if o[k + '_text'] != o[k]:
+                    ctx.violate('a convenience function answers differently for the JSON text of the document than for its encoding', case=case,
+                                function=k, observed={'jsonb': o[k][:300], 'text': o[k + '_text'][:300]})
         sel = {m: parse_sel(o[m]) for m in ('all', 'first', 'array', 'mixed', 'g', 'gf', 'ga')}
         if any(x is None for x in sel.values()):
             ctx.violate('modes disagree on success/error', case=case, observed=o)
